@@ -27,7 +27,7 @@ package fallback
 //@   ensures [C10.cancelled_before+C08.fallback.cancelled_before] failed && c1 ==> ncalls(e.fn) == 0 && ncalls(e.onFallbackExecuted) == 0 && result == ret(exec.IsCanceledWithResult, 1, 1)
 //@   ensures [C10.applied_once] failed && !c1 ==> ncalls(e.fn) == 1 && arg(e.fn, 1, 0) == ret(exec.CopyWithResult, ncalls(exec.CopyWithResult))
 //@   ensures [C10.cancelled_during+C08.fallback.cancelled_during] failed && !c1 && c2 ==> ncalls(e.onFallbackExecuted) == 0 && result == ret(exec.IsCanceledWithResult, 2, 1)
-//@   ensures [C10.replaced+C01.fallback.own_verdict] failed && !c1 && !c2 ==> result.Result == fbRes && result.Error == fbErr && result.Done && result.Success == !isFailureOf(e.BaseExecutor, fbRes, fbErr) && result.SuccessAll == result.Success
+//@   ensures [C10.replaced+C01.fallback.own_verdict+C12.fallback.own_outcome_classified] failed && !c1 && !c2 ==> result.Result == fbRes && result.Error == fbErr && result.Done && result.Success == !isFailureOf(e.BaseExecutor, fbRes, fbErr) && result.SuccessAll == result.Success
 //@   ensures [C10.listener+C16.fallback.executed] failed && !c1 && !c2 ==> (e.onFallbackExecuted != nil ==> ncalls(e.onFallbackExecuted) == 1) 
 //@   havoc
 //@   modifies calls(innerFn), calls(e.fn), calls(e.onFallbackExecuted), calls(exec.IsCanceledWithResult), calls(exec.CopyWithResult), calls(e.onFailure), calls(e.onSuccess)
